@@ -13,10 +13,23 @@ def run(ctx):
     c.tlc_l1(ctx, "ParallelExec.tla", "MC_ParallelExec_w.cfg", expect_violation="Reach_TwoWorkersBuffered", workers=2)
     gen = "Gen_ParallelCfgs.cfg" if q else "Gen_ParallelCfgs_all.cfg"
     edges = ctx.path(gen + ".edges")
-    g = c.tlc_gen(ctx, "ParallelCfgs.tla", gen, edges, cfgobj={"runs": 6 if q else 40, "seed": ctx.seed}, timeout=900)
+    casefile = ctx.path("case_in_flight.json")
+    g = c.tlc_gen(ctx, "ParallelCfgs.tla", gen, edges, cfgobj={"runs": 8 if q else 40, "seed": ctx.seed, "casefile": casefile}, timeout=900)
     try:
         r = c.replay(ctx, "parallel", edges, timeout=WATCHDOG_S if q else 6 * 3600)
-        c.log("  %d configurations x %d perturbed / rendez-vous runs each; %d failing" % (g["edges"], 6 if q else 40, r["failures_n"]))
+        c.log("  %d configurations x %d perturbed / rendez-vous runs each; %d failing" % (g["edges"], 8 if q else 40, r["failures_n"]))
+    except c.ToolError as e:
+        # the harness process died (abort / stack overflow inside execute_parallel): the case in flight is the culprit
+        if getattr(e, "rc", 0) is not None and getattr(e, "rc", 0) < 0 or getattr(e, "rc", 0) in (134, 139):
+            try:
+                label = json.load(open(casefile))
+            except Exception:
+                label = {"unknown": True}
+            ctx.failures.append({"model": "parallel", "kind": "process-died", "cfg": {"runs": 8, "seed": ctx.seed}, "prefix": [], "label": label,
+                                 "allowed": [{"returned": True, "same_as_sequential": True}],
+                                 "actual": {"returned": False, "what": "the process running execute_parallel died (%s): %s" % (e.rc, getattr(e, "stderr", "")[-300:])}})
+        else:
+            raise
     except subprocess.TimeoutExpired:
         ctx.failures.append({"model": "parallel", "kind": "did-not-return", "cfg": {}, "prefix": [], "label": {"watchdog_s": WATCHDOG_S},
                              "allowed": ["execute_parallel returns"], "actual": "the harness was still running after the watchdog"})
@@ -24,7 +37,8 @@ def run(ctx):
                        "and a fully disabled salience level) and checks bag equality with the sequential result, each rule once, level "
                        "order, no early start and <>returned, plus the chunk arithmetic for n<=24, threads<=16 as a lemma. code: every "
                        "configuration edge of ParallelCfgs.tla (n, salience pattern, disabled pattern, max_threads, min_rules_per_thread, "
-                       "parallel on/off) is run R times on the real engine - alternately with seeded random spins and with the last rule of "
+                       "parallel on/off, and a 250-level left-deep conjunction in one rule) is run R times on the real engine - half of them "
+                       "with one engine reused across two same-named, same-version knowledge bases with different thresholds - alternately with seeded random spins and with the last rule of "
                        "every worker's chunk rendez-vousing with the other workers of its level - and the set of (rule, fired) and both "
                        "totals are compared with the engine's own sequential path")
     ctx.assumptions += ["schedule independence is exhaustive for the model only; on the code it is explored through perturbed and rendez-vous "
